@@ -7,11 +7,15 @@ mod clock;
 mod hs;
 mod sha;
 mod msg;
+mod res;
 mod server;
 mod sess;
 mod util;
 
 use util::parse_args;
+
+#[global_allocator]
+static ALLOC: res::Counting = res::Counting;
 
 fn main() {
     let argv: Vec<String> = std::env::args().collect();
@@ -66,6 +70,16 @@ fn main() {
             let nshards: u64 = a.rest.get(2).map(|s| s.parse().unwrap()).unwrap_or(1);
             let info = hs::generate(&kind, &a.tier, a.seed, shard, nshards, &a.out);
             println!("{}", info);
+        }
+        "res" => {
+            let kind = a.rest[0].clone();
+            let shard: u64 = a.rest.get(1).map(|s| s.parse().unwrap()).unwrap_or(0);
+            let nshards: u64 = a.rest.get(2).map(|s| s.parse().unwrap()).unwrap_or(1);
+            let info = res::parent(&kind, &a.tier, a.seed, shard, nshards, &a.out);
+            println!("{}", info);
+        }
+        "res-child" => {
+            res::child(&argv[2], argv[3].parse().unwrap_or(0));
         }
         x => {
             eprintln!("unknown suite {}", x);
